@@ -111,6 +111,18 @@ func (g *gen) observe3() {
 			g.add("read %d 1", i)
 		}
 	}
+	// a result is a value: kept / walked results are not affected by later annihilations (these ops
+	// change the world, so they come last)
+	g.add("hold eq 1 1")
+	g.add("qkill 0 eq 1 1")
+	g.add("held")
+	g.add("hold in 1 3")
+	g.add("qkill %d in 1 3", len(g.comps)-1)
+	g.add("held")
+	g.add("hold in 0")
+	g.add("qkill 1 in 0")
+	g.add("held")
+	g.add("query in 0")
 }
 
 // one step of the exhaustive alphabet
@@ -234,7 +246,7 @@ func (g *gen) randomCase(maxOps int, malformed bool) {
 	}
 	n := r.Range(1, maxOps)
 	for j := 0; j < n; j++ {
-		switch r.Pick(26, 4, 14, 6, 3, 8, 8, 8, 3, 3, 12, 3, 1, 1, 1) {
+		switch r.Pick(26, 4, 14, 6, 3, 8, 8, 8, 3, 3, 12, 3, 1, 1, 1, 3, 3, 3) {
 		case 0:
 			ids := sets[r.Intn(len(sets))]
 			if r.Intn(6) == 0 { // permuted / duplicated id list
@@ -324,6 +336,28 @@ func (g *gen) randomCase(maxOps int, malformed bool) {
 			} else {
 				g.add("qiter %d and 2 in 1 %d %s", c, c, g.filter(2, pool))
 			}
+		case 15:
+			// often a filter that matches exactly one archetype
+			if r.Bool() {
+				ids := sets[r.Intn(len(sets))]
+				g.add("hold eq %s", strings.TrimSpace(fmt.Sprintf("%d %s", len(ids), joinInts(ids))))
+			} else {
+				g.add("hold %s", g.filter(2, pool))
+			}
+		case 16:
+			g.add("held")
+		case 17:
+			if len(g.living) == 0 {
+				continue
+			}
+			h := g.pickName(r.Intn(4) != 0)
+			ids := g.comps[h]
+			if r.Intn(3) != 0 {
+				g.add("%s", strings.TrimSpace(fmt.Sprintf("qkill %d eq %d %s", h, len(ids), joinInts(ids))))
+			} else {
+				g.add("qkill %d %s", h, g.filter(2, pool))
+			}
+			g.living[h] = false
 		case 12:
 			if g.ncomp > 0 {
 				g.add("rereg %d", r.Range(1, g.ncomp))
